@@ -774,6 +774,8 @@ namespace ip {
 			m_bytes_in_flight -= it->second;
 			m_outstanding_packet_sizes.erase(it);
 		}
+		// the hop that dropped the segment consumed its drop callback
+		p.drop_fun = std::bind(&tcp::socket::packet_dropped, this, _1);
 		m_outgoing_packets.push_back(std::move(p));
 
 		const int packets_in_cwnd = m_cwnd / m_mss;
